@@ -126,7 +126,7 @@ func c16WellFormed(w []string) bool {
 		return true
 	case "ungrp", "save":
 		return n == 1
-	case "defn":
+	case "defn", "deln":
 		return n == 3 && c16IsInt(w[1], false) && c16IsHex(w[2])
 	case "setc":
 		return n == 3 && c16IsHex(w[1]) && c16IsInt(w[2], false)
@@ -347,6 +347,27 @@ func (b *c16Book) apply(w []string) (ok bool, idx int) {
 		}
 		b.defs = append(b.defs, c16Def{name, key})
 		return true, 0
+	case "deln":
+		name := "dn_" + w[1]
+		scope := unhx(w[2])
+		key := 0
+		if scope != "" && scope != "Workbook" {
+			if !c16Valid(scope) {
+				return false, 0
+			}
+			i := b.find(scope)
+			if i < 0 {
+				return false, 0
+			}
+			key = b.ents[i].key
+		}
+		for i, d := range b.defs {
+			if d.key == key && d.name == name {
+				b.defs = append(b.defs[:i:i], b.defs[i+1:]...)
+				return true, 0
+			}
+		}
+		return false, 0
 	case "setc":
 		n := unhx(w[1])
 		v, _ := strconv.Atoi(w[2])
@@ -535,6 +556,8 @@ func c16Exec(f *xl.File, w []string) (res string) {
 		return e(f.UngroupSheets())
 	case "defn":
 		return e(f.SetDefinedName(&xl.DefinedName{Name: "dn_" + w[1], RefersTo: "1/2", Scope: unhx(w[2])}))
+	case "deln":
+		return e(f.DeleteDefinedName(&xl.DefinedName{Name: "dn_" + w[1], Scope: unhx(w[2])}))
 	case "setc":
 		v, _ := strconv.Atoi(w[2])
 		return e(f.SetCellInt(unhx(w[1]), "A1", int64(v)))
@@ -909,6 +932,12 @@ func (g *c16Gen) next() string {
 		if g.r.Chance(20) {
 			sc = ""
 		}
+		if g.r.Chance(5) {
+			sc = "Workbook"
+		}
+		if g.r.Chance(25) {
+			return fmt.Sprintf("deln %d %s", g.r.Intn(4), hx(sc))
+		}
 		return fmt.Sprintf("defn %d %s", g.r.Intn(4), hx(sc))
 	case k < 99:
 		return fmt.Sprintf("setc %s %d", hx(g.anyName()), 1+g.r.Intn(999))
@@ -924,7 +953,7 @@ var c16Witnesses = [][]string{
 	{"reset", "new 42", "new 43", "vis 42 0 0", "vis 43 0 1", "act 1", "vis 536865657431 0 1", "vis 536865657431 0 0"},
 	{"reset", "new 42", "vis 42 0 0", "del 536865657431", "new 43", "del 536865657431"},
 	{"reset", "new 41", "new 42", "new 43", "defn 0 41", "defn 1 43", "defn 2 536865657431", "move 43 41", "move 536865657431 43", "move 41 536865657431", "del 42", "save"},
-	{"reset", "new 576f726b626f6f6b", "defn 0 576f726b626f6f6b", "defn 0 -", "defn 1 6e6f73756368", "new 61", "defn 2 41", "defn 2 61", "defn 2 -", "del 61", "defn 2 61"},
+	{"reset", "new 576f726b626f6f6b", "defn 0 576f726b626f6f6b", "defn 0 -", "defn 1 6e6f73756368", "new 61", "defn 2 41", "defn 2 61", "defn 2 -", "deln 2 41", "deln 2 41", "deln 0 576f726b626f6f6b", "deln 7 -", "deln 2 6e6f73756368", "defn 2 61", "del 61", "defn 2 61", "deln 2 -", "deln 2 -"},
 	// the active last sheet is deleted, then a sheet is created: bookViews.activeTab must stay inside the list
 	{"reset", "new 42", "act 1", "del 42", "new 43", "act 1", "del 43", "del 536865657431", "new 44", "new 45", "act 2", "del 45", "del 44"},
 	{"reset", "ren 536865657431 7368656574310a", "ren 536865657431 736865657431", "ren 736865657431 534845455431", "new 736865657431"},
